@@ -40,6 +40,7 @@ type Env struct {
 	ByAddr  map[types.Address]*Actor
 
 	leafMu sync.Mutex
+	ends   map[uint64]bool // window ends claimed by any v1 contract of this env (all forks, pool included)
 	leaves map[types.Hash256][64]byte
 }
 
@@ -176,4 +177,21 @@ func (e *Env) leafFor(root types.Hash256) ([64]byte, bool) {
 	defer e.leafMu.Unlock()
 	l, ok := e.leaves[root]
 	return l, ok
+}
+
+// claimEnd returns the smallest window end >= min that no v1 contract of this
+// env (on any fork, or pooled) has used: expiration lists stay singletons on
+// every chain, which keeps workloads independent of the list-order convention.
+func (e *Env) claimEnd(min uint64) uint64 {
+	e.leafMu.Lock()
+	defer e.leafMu.Unlock()
+	if e.ends == nil {
+		e.ends = map[uint64]bool{}
+	}
+	for w := min; ; w++ {
+		if !e.ends[w] {
+			e.ends[w] = true
+			return w
+		}
+	}
 }
